@@ -306,6 +306,8 @@ def run(c):
         q = gen_mixed_query(c.rng, f) if c.rng.random() < 0.25 else None
         cases.append((f, q or gen_query(c.rng, f, single_metric_model=c.rng.random() < 0.7)))
     cases += [gen_m2m_case(c.rng) for _ in range(max(10, n // 10))] + [gen_composite_case(c.rng) for _ in range(max(10, n // 10))] + [gen_detail_case(c.rng) for _ in range(max(10, n // 10))] + [gen_keydim_case(c.rng) for _ in range(max(10, n // 10))]
+    # every fourth case under model names that contain one another (items / line_items / order_line_items / itemsx / items_raw)
+    cases = [jg.rename_case(f_, q_) if k_ % 4 == 1 else (f_, q_) for k_, (f_, q_) in enumerate(cases)]
     cf = jg.corpus_forest()
     cases[:0] = [
         (cf, dict(dims=[("mb", jg.jcol("s0"))], mets=[("ma", "sum", jg.jcol("c0"), [])], filters=[])),                       # K1: non-base metric through many_to_one
